@@ -654,6 +654,17 @@ def _forms(rng, big):
         shots = _shots(rng, w, rng.choice([3, 5, 6, 7, 11]))
         cases.append({"kind": "ev", "shots": shots, "terms": terms, "bessel": rng.random() < 0.4, "exact": False,
                       "coef": "int" if i % 4 < 2 else "np"})
+    # -- … python ints / numpy ints of LARGE magnitude in every term (products of two coefficients beyond 2^63: an integer-typed
+    #    vectorised product wraps around where the float product is merely rounded)
+    for i in range(24 if big else 8):
+        w = rng.randrange(1, 6)
+        terms = _terms(rng, w, rng.randrange(2, 5), True)
+        mags = [2 ** 31, 2 ** 32 + 1, 3037000500, 10 ** 10, 2 ** 40, 10 ** 15 + 3, 2 ** 53 + 2, 2 ** 61]
+        for t in terms:
+            t["coeff"] = rng.choice([-1, 1]) * (rng.choice(mags) + rng.randrange(0, 3))
+        shots = _shots(rng, w, rng.choice([2, 3, 5, 8, 11]))
+        cases.append({"kind": "ev", "shots": shots, "terms": terms, "bessel": rng.random() < 0.5, "exact": False,
+                      "coef": "int" if i % 4 < 3 else "np"})
     # -- operators as users build them: parsed from text, multiplied together, complex-typed real coefficients
     for i in range(60 if big else 21):
         w = rng.randrange(1, 7) if i % 5 else rng.randrange(9, 14)
